@@ -756,7 +756,9 @@ def job_quadrature(cfg):
     c = new_context()
     facade.install()
     name, dim, nP = cfg["law"], cfg["dim"], cfg["nPoints"]
-    key = f"path quadrature nPoints={nP} ({name}, dim={dim})"
+    # base displacement of the time scheme u_t = (1 - kappa) u_n + kappa u_n+1, kappa = coefK = du_t/du_n+1: 1/2 midpoint, 1 newmark, 1 - alpha hht
+    kappa = Fraction(cfg.get("coefK", "1/2"))
+    key = f"path quadrature nPoints={nP} ({name}, dim={dim})" + ("" if kappa == Fraction(1, 2) else f" coefK={kappa}")
     res.functions |= {"NonLinear.TimeQuadratureStressTensor", "NonLinear.__clenshaw_curtis", "NonLinear._StrainPathState", "NonLinear.__geometric_tangent", "NonLinear.__block_grad_B"}
     nodes, weights = getattr(NonLinear, "__clenshaw_curtis")(int(nP))
     # (a) the rule: exact for a general polynomial of degree nPoints - 1 (nPoints = 1: midpoint, degree 1) with symbolic coefficients
@@ -782,9 +784,9 @@ def job_quadrature(cfg):
         res.symbols += law.nsym
     mark = c.mark()
     with facade.symbolic():
-        ut = (un + u1) * Fraction(1, 2)
+        ut = un * (1 - kappa) + u1 * kappa
         st_n, st_t, st_1 = (HyperElasticState(g, x, MatrixType.rigi) for x in (un, ut, u1))
-        K_e, R_e, _ = NonLinear.TimeQuadratureStressTensor(law, st_n, st_t, st_1, 0.5, nP)
+        K_e, R_e, _ = NonLinear.TimeQuadratureStressTensor(law, st_n, st_t, st_1, float(kappa), nP)
         wJ = np.asarray(g.Get_weightedJacobian_e_pg(MatrixType.rigi), dtype=object)[0]
         th = law.thickness if dim == 2 else 1
         W0 = (wJ * np.asarray(law.Compute_W(HyperElasticState(g, un, MatrixType.rigi)), dtype=object)[0]).sum() * th
@@ -798,22 +800,35 @@ def job_quadrature(cfg):
         a = np.array([float(as_sym(x).eval(full)) for x in un])
         b = np.array([float(as_sym(x).eval(full)) for x in u1])
         lawf = make_law(name, dim) if name != "Polynomial" else law.concrete(full)
-        sa, sb, stt = HyperElasticState(g, a, MatrixType.rigi), HyperElasticState(g, b, MatrixType.rigi), HyperElasticState(g, (a + b) / 2, MatrixType.rigi)
-        Kf, Rf, _ = NonLinear.TimeQuadratureStressTensor(lawf, sa, stt, sb, 0.5, nP)
+        kf = float(kappa)
+        sa, sb, stt = HyperElasticState(g, a, MatrixType.rigi), HyperElasticState(g, b, MatrixType.rigi), HyperElasticState(g, (1 - kf) * a + kf * b, MatrixType.rigi)
+        Kf, Rf, _ = NonLinear.TimeQuadratureStressTensor(lawf, sa, stt, sb, kf, nP)
         wJf = np.asarray(g.Get_weightedJacobian_e_pg(MatrixType.rigi))[0]
         thf = lawf.thickness if dim == 2 else 1
         dW = float(((wJf * np.asarray(lawf.Compute_W(sb))[0]).sum() - (wJf * np.asarray(lawf.Compute_W(sa))[0]).sum()) * thf)
         work = float(np.asarray(Rf)[0] @ (b - a))
-        return abs(work - dW) > 1e-9 * max(1e-3, abs(dW)), {"nPoints": nP, "R.du": work, "W(u_n+1) - W(u_n)": dW, "u_n": a.tolist(), "u_n+1": b.tolist()}
+        # tangent by central differences of the residual w.r.t. u_n+1
+        h = 1e-6
+        Kn = np.zeros((len(b), len(b)))
+        for j in range(len(b)):
+            bp, bm = b.copy(), b.copy()
+            bp[j] += h
+            bm[j] -= h
+            Rp = np.asarray(NonLinear.TimeQuadratureStressTensor(lawf, sa, HyperElasticState(g, (1 - kf) * a + kf * bp, MatrixType.rigi), HyperElasticState(g, bp, MatrixType.rigi), kf, nP)[1])[0]
+            Rm = np.asarray(NonLinear.TimeQuadratureStressTensor(lawf, sa, HyperElasticState(g, (1 - kf) * a + kf * bm, MatrixType.rigi), HyperElasticState(g, bm, MatrixType.rigi), kf, nP)[1])[0]
+            Kn[:, j] = (Rp - Rm) / (2 * h)
+        terr = float(np.abs(kf * np.asarray(Kf)[0] - Kn).max() / max(1.0, np.abs(Kn).max()))
+        bad_dg = kappa == Fraction(1, 2) and abs(work - dW) > 1e-9 * max(1e-3, abs(dW))
+        return bad_dg or terr > 1e-5, {"coefK": kf, "relative_error_coefK_K_vs_finite_differences_of_R": terr, "nPoints": nP, "R.du": work, "W(u_n+1) - W(u_n)": dW, "u_n": a.tolist(), "u_n+1": b.tolist()}
 
     work = sum(as_sym(R_e[i]) * (as_sym(u1[i]) - as_sym(un[i])) for i in range(len(sn)))
     # the stress along the strain path is a polynomial in s of degree (degree of W in e) - 1: 1 for SaintVenantKirchhoff, 2 for the cubic law
     need = 1 if name == "SaintVenantKirchhoff" else 2
-    if deg >= need or (nP == 1 and need == 1):
+    if kappa == Fraction(1, 2) and (deg >= need or (nP == 1 and need == 1)):
         close_all(res, f"{key}: discrete gradient, R_e . (u_n+1 - u_n) = W(u_n+1) - W(u_n) for all end states", [(work, as_sym(W1) - as_sym(W0))], pcs, replay, f"path quadrature discrete gradient ({name})",
                   sample={"obligation": f"{key}: for all u_n, u_n+1 in the box: |R_e.(u_n+1 - u_n) - (W(u_n+1) - W(u_n))| <= tol (polynomial identity)"})
     ndof = len(s1)
-    pairs = [(as_sym(R_e[i]).diff(s1[j]), as_sym(K_e[i, j]) * Fraction(1, 2)) for i in range(ndof) for j in range(ndof)]
+    pairs = [(as_sym(R_e[i]).diff(s1[j]), as_sym(K_e[i, j]) * kappa) for i in range(ndof) for j in range(ndof)]
     close_all(res, f"{key}: coefK K_e = dR_e/du_n+1 entrywise", pairs, pcs, replay, f"path quadrature tangent ({name})")
     tw = prove_abs_le(work - (as_sym(W1) - as_sym(W0)) * 2, TOL, pcs, "twin")
     res.twin(f"{key} twin", tw.status == "cex")
@@ -854,6 +869,9 @@ def main():
     if tier == "thorough":
         # cubic energy: the stress is quadratic along the strain path, Simpson's rule (3 points) is the first exact one
         configs.append({"kind": "quadrature", "law": "Polynomial", "dim": 2, "nPoints": 3})
+    # other time schemes: coefK = 1 (newmark), 3/4 (hht with alpha = 1/4)
+    configs.append({"kind": "quadrature", "law": "SaintVenantKirchhoff", "dim": 2, "nPoints": 3, "coefK": "1"})
+    configs.append({"kind": "quadrature", "law": "SaintVenantKirchhoff", "dim": 2, "nPoints": 2, "coefK": "3/4"})
     results = harness.run_jobs(job, configs)
     harness.finish(
         PID, results, t0=t0,
